@@ -195,3 +195,108 @@ func pickHeaders(t *rapid.T, pool []hdrChoice, max int, label string) ([]lab.KV,
 	}
 	return out, labels
 }
+
+// ---- response fields that carry a URI reference (Location, Content-Location, Link, Refresh, CORS origin, cookie domain) ----
+//
+// A backend names resources by URL in its response head: a redirect target, the identifier of a created
+// resource, a pagination link, an allowed origin. Which authority such a reference names is a dimension of
+// its own: none (relative), a third party, the public name the client used, the address of the Helios front,
+// the backend's OWN configured address (a backend that builds URLs from its listen address), or the address
+// of a sibling backend. Whatever it names, the field is an end-to-end response field and reaches the client
+// byte for byte. The addresses are only known once the lab runs, so the generator draws a template with
+// placeholders that runExchange resolves per backend (resolveRefs): {self} {SELF} {selfhost} {peer} {front} {base}.
+var refAuthorities = []struct{ prefix, label string }{
+	{"", "ref=relative"},
+	{"http://example.com", "ref=other-host"},
+	{"https://{clienthost}", "ref=client-host"},
+	{"http://{front}", "ref=front-address"},
+	{"{self}", "ref=backend-own-address"},
+	{"{self}", "ref=backend-own-address"},
+	{"{SELF}", "ref=backend-own-address"},
+	{"http://user:pw@{selfhost}", "ref=backend-own-address"},
+	{"//{selfhost}", "ref=backend-own-address"},
+	{"https://{selfhost}", "ref=backend-own-host-other-scheme"},
+	{"{peer}", "ref=peer-backend-address"},
+}
+
+// paths of a reference; "" (authority only) and unnormalised spellings included: a relay does not re-serialise them
+var refPaths = []string{"", "/", "/next?x=1", "/items/42", "{base}/items/42", "{base}", "/a%2Fb/c%20d?q=%26#frag", "/x/../y/./z", "/caf\xc3\xa9", "/p?redirect=http://example.com/", "/UPPER/lower;v=1"}
+
+func genRef(t *rapid.T) (string, string) {
+	a := rapid.SampledFrom(refAuthorities).Draw(t, "ref-authority")
+	p := rapid.SampledFrom(refPaths).Draw(t, "ref-path")
+	if a.prefix == "" && (p == "" || p == "{base}") {
+		p = "next" // an empty field value is the "empty-value" class; a relative reference without leading slash here
+	}
+	return a.prefix + p, a.label
+}
+
+// genRefHeaders draws 0-2 reference-carrying response fields; a 301/302 always has a Location.
+func genRefHeaders(t *rapid.T, status int, have []lab.KV) ([]lab.KV, []string) {
+	var out []lab.KV
+	var labels []string
+	has := func(k string) bool {
+		for _, kv := range append(append([]lab.KV{}, have...), out...) {
+			if strings.EqualFold(kv.K, k) {
+				return true
+			}
+		}
+		return false
+	}
+	add := func(k string) {
+		if has(k) {
+			return
+		}
+		ref, label := genRef(t)
+		v := ref
+		switch k {
+		case "Link":
+			v = "<" + ref + ">; rel=\"next\""
+		case "Refresh":
+			v = "5; url=" + ref
+		case "Access-Control-Allow-Origin":
+			// an origin is scheme and authority, no path
+			if i := strings.Index(ref, "://"); i >= 0 {
+				if j := strings.IndexAny(ref[i+3:], "/?#"); j >= 0 {
+					v = ref[:i+3+j]
+				}
+			} else {
+				v, label = "http://{selfhost}", "ref=backend-own-address"
+			}
+		case "Set-Cookie":
+			v = "sid=1; Domain={selfhostname}; Path=" + map[bool]string{true: "/", false: "{base}/"}[strings.HasPrefix(ref, "{")]
+			label = "ref=backend-own-address"
+		}
+		out = append(out, lab.KV{K: k, V: v})
+		labels = append(labels, "resp-ref:"+k, label)
+	}
+	if status == 301 || status == 302 {
+		add("Location")
+	}
+	if rapid.IntRange(0, 2).Draw(t, "refs") == 0 {
+		n := rapid.IntRange(1, 2).Draw(t, "ref-n")
+		for i := 0; i < n; i++ {
+			add(rapid.SampledFrom([]string{"Location", "Location", "Content-Location", "Content-Location", "Link", "Refresh", "Access-Control-Allow-Origin", "Set-Cookie", "X-Resource-Url"}).Draw(t, "ref-field"))
+		}
+	}
+	return out, labels
+}
+
+// resolveRefs fills the placeholders of a drawn reference for the backend that plays the script.
+func resolveRefs(h []lab.KV, self, peer, front, base, clientHost string) []lab.KV {
+	selfHost := strings.TrimPrefix(self, "http://")
+	hostname := selfHost
+	if i := strings.LastIndexByte(hostname, ':'); i >= 0 {
+		hostname = hostname[:i]
+	}
+	if i := strings.IndexByte(base, '?'); i >= 0 {
+		base = base[:i]
+	}
+	base = strings.TrimSuffix(base, "/")
+	r := strings.NewReplacer("{selfhostname}", hostname, "{selfhost}", selfHost, "{self}", self, "{SELF}", strings.ToUpper(self), "{peer}", peer, "{front}", front, "{base}", base, "{clienthost}", clientHost)
+	out := make([]lab.KV, len(h))
+	for i, kv := range h {
+		out[i] = lab.KV{K: kv.K, V: r.Replace(kv.V)}
+	}
+	return out
+}
